@@ -58,6 +58,14 @@ def main():
     assert R.grid_axis_weights(0, 2, 2, 0, 2) == [1, 1]
     Wg = R.grid_weights([0, 0], [0.5, 0], (3, 1), [-0.125, -1], [1.625, 0.5])
     assert Wg.tolist() == [[0.5625], [0.75], [1.3125]] and Wg.sum() == 1.75 * 1.5
+    # far from the origin / tiny cells: the weights depend on lengths only
+    assert R.discr_weights([2.0 ** 20], [2.0 ** 20 + 3], (3,), [(0, 0)]).tolist() == [1, 1, 1]
+    assert R.discr_weights([-2.0 ** 24], [-2.0 ** 24 + 2], (3,), [(1, 1)]).tolist() == [.5, 1, .5]
+    assert R.axis_weights(0, 3 * 2.0 ** -30, 3, 0, 0) == [Fr(1, 2 ** 30)] * 3
+    assert R.grid_axis_weights(2.0 ** 20, 0.5, 3, 2.0 ** 20 - 0.125, 2.0 ** 20 + 1.625) == \
+        [Fr(3, 8), Fr(1, 2), Fr(7, 8)]
+    d = Fr(1, 2 ** 20)
+    assert R.grid_fractions([0], [0.5], (2,), [-0.25 - 2.0 ** -21], [0.75]) == [(1 + d, Fr(1))]
     # inner: linear in the first argument, conjugate linear in the second
     W = [2.0, 0.5]
     assert R.inner_w(W, [1, 2], [3, -1]) == 2 * 3 - 0.5 * 2
